@@ -770,11 +770,15 @@ class AdvURI(AdvDataField):
         """
         if len(ad_record) >= 2:
             # Fetch the first UTF-8 character codepoint
-            scheme = ord(ad_record.decode("utf-8")[0])
-            scheme_size = len(ad_record.decode("utf-8")[0].encode("utf-8"))
-            uri = ad_record[scheme_size:]
-            scheme_alias = AdvURI.get_scheme(scheme)
-            decoded_uri = uri.decode('utf-8')
+            try:
+                scheme = ord(ad_record.decode("utf-8")[0])
+                scheme_size = len(ad_record.decode("utf-8")[0].encode("utf-8"))
+                uri = ad_record[scheme_size:]
+                scheme_alias = AdvURI.get_scheme(scheme)
+                decoded_uri = uri.decode('utf-8')
+            except UnicodeDecodeError as err:
+                # Not a valid UTF-8 string
+                raise AdvDataError from err
             if scheme_alias is not None:
                 scheme = AdvURI.get_scheme(scheme)
                 return AdvURI(f"{scheme}:{decoded_uri}")
